@@ -70,6 +70,23 @@ def cases(tier, rng):
         L("z", "zkind", k)
     for k in range(600 if tier == "thorough" else 12):
         L("pid", "raw", rng.randint(0, 100000))
+    hs = []
+    def H(msg, mut, arg=0, dir="up"):
+        hs.append({"id": 200000 + len(hs), "dir": dir, "msg": msg, "mut": mut, "arg": arg})
+    H(2, "none"); H(2, "nilerr"); H(1, "none")
+    for off in (range(0, 160) if tier == "thorough" else rng.sample(range(0, 160), 10)):
+        H(1, "flip", off)
+    for off in (list(range(0, 400)) + [rng.randint(400, 7000) for _ in range(200)] if tier == "thorough" else rng.sample(range(0, 400), 16) + [rng.randint(400, 7000) for _ in range(8)]):
+        H(2, "flip", off)
+    for cut in ((0, 1, 2, 5, 50, 100, 500, 3000) if tier == "thorough" else (0, 50, 3000)):
+        H(2, "cut", cut); H(1, "cut", min(cut, 100))
+    # the acceptor's messages altered on their way to the dialer: Hello, Accept (pool size, addresses), Introduce
+    for msg, span in ((1, 160), (2, 120), (3, 400)):
+        H(msg, "none", dir="down")
+        for off in (range(0, span) if tier == "thorough" else rng.sample(range(0, span), 10)):
+            H(msg, "flip", off, dir="down")
+        H(msg, "cut", 0, dir="down"); H(msg, "cut", 30, dir="down")
+    H(3, "nilerr", dir="down")
     def E(value, mut, arg, arg2=0):
         edf.append({"id": 100000 + len(edf), "value": value, "mut": mut, "arg": arg, "arg2": arg2})
     for v in VALUES:
@@ -88,7 +105,7 @@ def cases(tier, rng):
                 E(v, "tag", pos, t)
         for pos in (range(0, 40) if tier == "thorough" else rng.sample(range(0, 40), 4)):
             E(v, "dup", pos)
-    return live, edf
+    return live, edf, hs
 
 
 def main(prop, tier):
@@ -98,9 +115,9 @@ def main(prop, tier):
         vh, _ = vlib.build_harness(w)
         vlib.stage_spec(w)
         mst, mtr = model(w)
-        live, edf = cases(tier, rng)
+        live, edf, hs = cases(tier, rng)
         nshard = 12
-        shards = [{"live": live[i::nshard], "edf": edf[i::nshard]} for i in range(nshard)]
+        shards = [{"live": live[i::nshard], "edf": edf[i::nshard], "hs": hs[i::nshard]} for i in range(nshard)]
         import concurrent.futures as cf
         def run(i):
             inp = os.path.join(w, "host_in_%d.json" % i); out = os.path.join(w, "host_trace_%d.ndjson" % i)
@@ -150,7 +167,7 @@ def main(prop, tier):
             if clause == "ReencodeStable" and e["ev"] == "edf" and e.get("zeroelem") and known.get("P30b", {}).get("status") == "open":
                 kf.setdefault("P30b", []).append(v); continue
             violations.append(v)
-        total = len(live) + len(edf)
+        total = len(live) + len(edf) + len(hs)
         outcomes = {}
         for x in lines:
             e = json.loads(x)
@@ -168,7 +185,7 @@ def main(prop, tier):
                "rule": "cases come from the mutation grammar (systematic positions and values per tier, plus seeded random frames); a case counts as non-trivial and distinct when the bytes "
                        "actually injected / decoded differ from the honest ones and their hash (with the frame kind or corpus value) was not seen before in this run",
                "states": max(r.distinct + mst, 1), "transitions": max(r.generated + mtr, 1), "traces_validated_against_impl": total - len(violations),
-               "samples": [live[0], edf[rng.randrange(len(edf))]], "live_cases": len(live), "decoder_cases": len(edf), "decoder_outcomes": outcomes,
+               "samples": [live[0], edf[rng.randrange(len(edf))]], "live_cases": len(live), "decoder_cases": len(edf), "handshake_tamper_cases": len(hs), "decoder_outcomes": outcomes,
                "live_cases_without_their_frame": notfound, "clauses": CLAUSES + ["NoCrash"], "exhaustive": False}
         assumptions = ["the mutation grammar: length field (absolute and relative values), magic, version, type byte, truncation at every offset 8-59, body byte flips, compressed-envelope size and method, random frames; decoder: truncation, 0xff / 0x00 at every offset < 130, type tags, duplicated tails",
                        "memory: live cases - high-water mark of the live heap above its level before the injection (sampled every 3 ms until the witness requests are done); decoder cases - bytes allocated by the call; limit 64 x input + 32 MiB",
@@ -182,11 +199,13 @@ def main(prop, tier):
             e = v["line"]
             path = vlib.save_replay(prop, "host_%s_%s" % (e["p"], v["clause"]), v)
             print("VIOLATION property=%s replay=%s" % (prop, path))
-            if e["ev"] == "live":
+            if e["ev"] == "hs":
+                print("  clause %s: handshake message %s (direction %s) altered on the path (%s %s): connection up=%s, local=%s witness=%s" % (v["clause"], e["h"]["msg"], e["h"].get("dir") or "up", e["h"]["mut"], e["h"]["arg"], e["connup"], e["local"], e["witness"]))
+            elif e["ev"] == "live":
                 print("  clause %s: frame %s mutation %s(%s) max=%s: %d bytes injected; local=%s witness=%s node=%s conn_up=%s alloc=%d KiB %d ms" % (v["clause"], e["l"]["frame"], e["l"]["mut"], e["l"]["arg"], e["l"]["max"], e["injected"], e["local"], e["witness"], e["nodeok"], e["connup"], e["allockb"], e["ms"]))
             else:
                 print("  clause %s: value %s mutation %s(%s,%s): %d bytes -> %s stable=%s alloc=%d KiB" % (v["clause"], e["e"]["value"], e["e"]["mut"], e["e"]["arg"], e["e"]["arg2"], e["len"], e["outcome"], e["stable"], e["allockb"]))
-        print("%s %s: %d live cases + %d decoder cases, %d validated against spec/Hostile.tla, %d violations, %.0fs" % (prop, tier, len(live), len(edf), total - len(violations), len(violations), time.time() - t0))
+        print("%s %s: %d live cases + %d handshake cases + %d decoder cases, %d validated against spec/Hostile.tla, %d violations, %.0fs" % (prop, tier, len(live), len(hs), len(edf), total - len(violations), len(violations), time.time() - t0))
         return 1 if violations else 0
     finally:
         if not os.environ.get("VERIF_KEEP"):
